@@ -102,17 +102,21 @@ theorem zero_extent_identity (img : Arr ℝ) (m n : ℕ) (hm : img.s0 = m) (hn :
 example : ∃ img : Arr ℝ, (∀ i j, 0 ≤ img.get i j) ∧ arrSum img ≠ 0 ∧ img.s0 ≠ img.s1 :=
   ⟨⟨1, 2, fun _ _ => 1⟩, fun _ _ => by norm_num, by rw [arrSum_eq]; norm_num [Finset.sum_range_succ], by norm_num⟩
 
-/-- outputs are never negative (for jitter and smear: on images with non-negative total) -/
-theorem blur_nonneg (img : Arr ℝ) (os scale dist ang ps : ℝ) (hS : 0 ≤ arrSum img) (i j : ℤ) :
-    0 ≤ (pixel ℂ img os).get i j ∧ 0 ≤ (jitter ℂ img scale ps os).get i j ∧ 0 ≤ (smear ℂ img dist ang ps os).get i j := by
+/-- outputs are never negative: pixel on every image; jitter and smear on images with *positive* total. The all-zero image — the
+one non-negative image with total 0 — is left out on purpose: there the real code evaluates `0·0/0 = nan` (known finding
+KF-C19-zero-image-nan, run on every check), while `x/0 = 0` in ℝ would make the inequality hold for the wrong reason. With a
+positive total the renormalisation divides by `Σ blur ≥ Σ img > 0` (`blurCore_total_ge`), so no division by zero is involved. -/
+theorem blur_nonneg (img : Arr ℝ) (os scale dist ang ps : ℝ) (i j : ℤ) :
+    0 ≤ (pixel ℂ img os).get i j ∧
+    (0 < arrSum img → 0 ≤ (jitter ℂ img scale ps os).get i j ∧ 0 ≤ (smear ℂ img dist ang ps os).get i j) := by
   have hcore : ∀ k : Arr ℝ, ∀ i j : ℤ, 0 ≤ (blurCore ℂ img k).get i j := by
     intro k i j; rw [blurCore_def]; simp only [absArr, AbsLike.cabs]; exact norm_nonneg _
   have hsum : ∀ k : Arr ℝ, 0 ≤ arrSum (blurCore ℂ img k) := by
     intro k; rw [arrSum_eq]; exact sum_nonneg fun i _ => sum_nonneg fun j _ => hcore k i j
   rw [pixel_def, jitter_def, smear_def]
-  refine ⟨hcore _ i j, ?_, ?_⟩
-  · rw [renorm_get]; exact div_nonneg (mul_nonneg (hcore _ i j) hS) (hsum _)
-  · rw [renorm_get]; exact div_nonneg (mul_nonneg (hcore _ i j) hS) (hsum _)
+  refine ⟨hcore _ i j, fun hS => ⟨?_, ?_⟩⟩
+  · rw [renorm_get]; exact div_nonneg (mul_nonneg (hcore _ i j) hS.le) (hsum _)
+  · rw [renorm_get]; exact div_nonneg (mul_nonneg (hcore _ i j) hS.le) (hsum _)
 
 /-- renormalisation restores the input total whenever the un-normalised blur has non-zero total -/
 theorem renorm_total (img out : Arr ℝ) (h : arrSum out ≠ 0) : arrSum (renorm img out) = arrSum img := by
@@ -128,7 +132,8 @@ theorem renorm_total (img out : Arr ℝ) (h : arrSum out ≠ 0) : arrSum (renorm
 /-- **jitter and smear keep the total.** For every image with non-zero total (in particular every non-negative image
 that is not identically zero), every shape, extent, angle, pixel scale and oversampling: the un-normalised blur has total
 `≥ |Σ img| > 0` (unit DC gain: `Σ ifft2(fft2(img)·K) = K[0,0]·Σ img`, then the triangle inequality), so the renormalised
-output has exactly the input total. -/
+output has exactly the input total. The identically-zero image is excluded: the real code returns `nan` there (`0·0/0`; known
+finding KF-C19-zero-image-nan) — the property's "every non-negative input" does not hold for it. -/
 theorem renormalised_total_preserved (img : Arr ℝ) (m n : ℕ) (hm : img.s0 = m) (hn : img.s1 = n) (hm0 : 0 < m) (hn0 : 0 < n)
     (hS : arrSum img ≠ 0) (scale dist ang ps os : ℝ) :
     arrSum (jitter ℂ img scale ps os) = arrSum img ∧ arrSum (smear ℂ img dist ang ps os) = arrSum img := by
@@ -180,43 +185,13 @@ theorem blur_commutes_with_roll (img : Arr ℝ) (m n : ℕ) (hm : img.s0 = m) (h
 
 example : ∃ (a b : ℤ), a < 0 ∧ 0 < b := ⟨-3, 2, by norm_num, by norm_num⟩
 
-/-- **a non-negative convolution is returned unchanged and keeps the total** (conditional form, any axis parity; partial). Writing the exact circular
-convolution as the inverse transform of the product, `c = ifft2(fft2(img)·K)`: wherever `c` is real and non-negative the
-un-normalised output equals it, and if it is so at every sample the output total is `K[0,0]·Σ img = Σ img`.
-Realness of `c` is a hypothesis here; it is *proved* for pixel and jitter on every shape and for smear on odd × odd shapes
-(`pixel_jitter_equal_convolution_all_shapes`, `blurs_equal_convolution_odd`), so this conditional form is only needed for
-smear on even axes. -/
-theorem nonneg_convolution_kept_partial (img k : Arr ℝ) (m n : ℕ) (hm : img.s0 = m) (hn : img.s1 = n) (hm0 : 0 < m)
-    (hn0 : 0 < n) (r : ℕ → ℕ → ℝ) (hr : ∀ i j, 0 ≤ r i j)
-    (hc : ∀ i j : ℕ, i < m → j < n →
-      (ifft2 (R := ℝ) (mulKernel (fft2 (R := ℝ) (toCx (K := ℂ) img)) k)).get i j = ((r i j : ℝ) : ℂ)) :
-    (∀ i j : ℕ, i < m → j < n → (blurCore ℂ img k).get i j = r i j) ∧
-    (k.get 0 0 = 1 → arrSum (blurCore ℂ img k) = arrSum img) := by
-  have hget : ∀ i j : ℕ, i < m → j < n → (blurCore ℂ img k).get i j = r i j := by
-    intro i j hi hj
-    rw [blurCore_def]
-    show ‖(ifft2 (R := ℝ) (mulKernel (fft2 (R := ℝ) (toCx (K := ℂ) img)) k)).get i j‖ = r i j
-    rw [hc i j hi hj, Complex.norm_real, Real.norm_eq_abs, abs_of_nonneg (hr i j)]
-  refine ⟨hget, fun hk => ?_⟩
-  have h0 : (blurCore ℂ img k).s0 = m := hm
-  have h1 : (blurCore ℂ img k).s1 = n := hn
-  rw [arrSum_eq (blurCore ℂ img k), h0, h1]
-  simp only [Int.toNat_natCast]
-  have hs := sum_filtered img k m n hm hn hm0 hn0
-  rw [hk, one_mul] at hs
-  apply Complex.ofReal_injective
-  rw [← hs]
-  push_cast
-  exact sum_congr rfl fun i hi => sum_congr rfl fun j hj => by
-    rw [hget i j (mem_range.mp hi) (mem_range.mp hj), hc i j (mem_range.mp hi) (mem_range.mp hj)]
-
 open ComplexConjugate in
 /-- **equals the convolution (Hermitian kernel; in particular odd × odd images).** With `c = ifft2(fft2(img)·K)` the exact
 circular convolution in its Fourier form and `K` Hermitian (`KerEven`, which holds for pixel, jitter and smear on odd axes by
 `transfer_functions_hermitian_odd`): `c` is real at every sample and the un-normalised output is `|c|`; if moreover `c ≥ 0`
 on the image, the output equals `c` at every sample, and with unit DC gain it keeps the total, so the renormalised output
-(jitter, smear) equals `c` too. No realness assumption. *Not proved:* the size of the deviation caused by the unpaired
-Nyquist row/column on even axes, and the spatial-domain form of the convolution (convolution theorem). -/
+(jitter, smear) equals `c` too. No realness assumption. (Smear on even axes, where `K` is not Hermitian: `smear_even_axis_deviation`;
+the spatial-domain form of `c`: `conv_is_circular_convolution`.) -/
 theorem equals_convolution_when_hermitian (img k : Arr ℝ) (m n : ℕ) (hm : img.s0 = m) (hn : img.s1 = n) (hm0 : 0 < m)
     (hn0 : 0 < n) (hk : KerEven k m n) : EqualsConvolution img k m n := by
   unfold EqualsConvolution conv
@@ -229,7 +204,7 @@ theorem equals_convolution_when_hermitian (img k : Arr ℝ) (m n : ℕ) (hm : im
     show ‖(ifft2 (R := ℝ) (mulKernel (fft2 (R := ℝ) (toCx (K := ℂ) img)) k)).get i j‖ = _
     rw [hreal i j, Complex.norm_real, Real.norm_eq_abs, Complex.ofReal_re]
   · intro hpos
-    have h := nonneg_convolution_kept_partial img k m n hm hn hm0 hn0
+    have h := nonneg_convolution_kept img k m n hm hn hm0 hn0
       (fun i j => |((ifft2 (R := ℝ) (mulKernel (fft2 (R := ℝ) (toCx (K := ℂ) img)) k)).get i j).re|) (fun _ _ => abs_nonneg _)
       (fun i j hi hj => by rw [abs_of_nonneg (hpos i j hi hj)]; exact hreal i j)
     refine ⟨fun i j hi hj => by rw [h.1 i j hi hj, abs_of_nonneg (hpos i j hi hj)], fun hk0 => ⟨h.2 hk0, fun hS i j hi hj => ?_⟩⟩
@@ -319,6 +294,66 @@ theorem smear_renormalised_deviation (img : Arr ℝ) (m n : ℕ) (hm : img.s0 = 
           - abs ((conv img (evenPart (smearKernel m n dist ang ps os) m n)).get i j).re) * 1 :=
         mul_le_mul_of_nonneg_left hfac1 (abs_nonneg _)
     _ ≤ _ := by rw [mul_one]; exact hdev
+
+/-- **the even-axis deviation is at most the image's content on the Nyquist row and column.** At every sample the smear output —
+un-normalised, and renormalised for an image of positive total — differs from (the equally renormalised) `|c_H|` by at most
+`(1/(mn))·Σ_{2u = m or 2v = n} |fft2(img)[u, v]|`: only the image's own spectrum on the unpaired lines enters, whatever the smear
+distance and angle. -/
+theorem smear_deviation_le_nyquist_lines (img : Arr ℝ) (m n : ℕ) (hm : img.s0 = m) (hn : img.s1 = n) (hm0 : 0 < m) (hn0 : 0 < n)
+    (dist ang ps os : ℝ) (i j : ℤ) :
+    abs ((blurCore ℂ img (smearKernel m n dist ang ps os)).get i j
+        - abs ((conv img (evenPart (smearKernel m n dist ang ps os) m n)).get i j).re)
+      ≤ (∑ v ∈ range n, ∑ u ∈ range m,
+          if 2 * u = m ∨ 2 * v = n then ‖(fft2 (R := ℝ) (toCx (K := ℂ) img)).get u v‖ else 0) / ((m : ℝ) * n) ∧
+    (0 < arrSum img →
+      abs ((smear ℂ img dist ang ps os).get i j
+          - abs ((conv img (evenPart (smearKernel m n dist ang ps os) m n)).get i j).re
+            * (arrSum img / arrSum (blurCore ℂ img (smearKernel m n dist ang ps os))))
+        ≤ (∑ v ∈ range n, ∑ u ∈ range m,
+            if 2 * u = m ∨ 2 * v = n then ‖(fft2 (R := ℝ) (toCx (K := ℂ) img)).get u v‖ else 0) / ((m : ℝ) * n)) :=
+  ⟨(smear_even_axis_deviation img m n hm hn hm0 hn0 dist ang ps os i j).2.1.trans
+      (nyquist_bound_le_lines img m n hm0 hn0 dist ang ps os),
+   fun hS => (smear_renormalised_deviation img m n hm hn hm0 hn0 hS dist ang ps os i j).trans
+      (nyquist_bound_le_lines img m n hm0 hn0 dist ang ps os)⟩
+
+/-- **a Nyquist-free image is smeared exactly.** If the image spectrum vanishes on the Nyquist row (`2u = m`, present when `m` is
+even) and the Nyquist column (`2v = n`), then on every shape — even axes included — the un-normalised smear output equals
+`|c_H|`, the modulus of the real circular convolution with the Hermitian part of the directional sinc, at every sample; and for
+an image of positive total the renormalised output equals the equally renormalised `|c_H|`. (Odd × odd images satisfy the
+hypothesis vacuously: `blurs_equal_convolution_odd`.) -/
+theorem smear_exact_when_nyquist_free (img : Arr ℝ) (m n : ℕ) (hm : img.s0 = m) (hn : img.s1 = n) (hm0 : 0 < m) (hn0 : 0 < n)
+    (dist ang ps os : ℝ)
+    (hfree : ∀ u v : ℕ, u < m → v < n → (2 * u = m ∨ 2 * v = n) → (fft2 (R := ℝ) (toCx (K := ℂ) img)).get u v = 0) (i j : ℤ) :
+    (blurCore ℂ img (smearKernel m n dist ang ps os)).get i j
+      = abs ((conv img (evenPart (smearKernel m n dist ang ps os) m n)).get i j).re ∧
+    (0 < arrSum img →
+      (smear ℂ img dist ang ps os).get i j
+        = abs ((conv img (evenPart (smearKernel m n dist ang ps os) m n)).get i j).re
+          * (arrSum img / arrSum (blurCore ℂ img (smearKernel m n dist ang ps os)))) := by
+  have h := smear_deviation_le_nyquist_lines img m n hm hn hm0 hn0 dist ang ps os i j
+  have hz : (∑ v ∈ range n, ∑ u ∈ range m,
+      if 2 * u = m ∨ 2 * v = n then ‖(fft2 (R := ℝ) (toCx (K := ℂ) img)).get u v‖ else 0) = 0 := by
+    refine sum_eq_zero fun v hv => sum_eq_zero fun u hu => ?_
+    split_ifs with hny
+    · rw [hfree u v (mem_range.mp hu) (mem_range.mp hv) hny, norm_zero]
+    · rfl
+  rw [hz, zero_div] at h
+  exact ⟨sub_eq_zero.mp (abs_nonpos_iff.mp h.1), fun hS => sub_eq_zero.mp (abs_nonpos_iff.mp (h.2 hS))⟩
+
+/-- non-vacuity on an even axis: the constant 2 × 1 image has no content on its Nyquist row -/
+example : ∃ img : Arr ℝ, img.s0 = 2 ∧ img.s1 = 1 ∧ 0 < arrSum img ∧
+    ∀ u v : ℕ, u < 2 → v < 1 → (2 * u = 2 ∨ 2 * v = 1) → (fft2 (R := ℝ) (toCx (K := ℂ) img)).get u v = 0 := by
+  refine ⟨⟨2, 1, fun _ _ => 1⟩, rfl, rfl, by rw [arrSum_eq]; simp, fun u v hu hv h => ?_⟩
+  have hu1 : u = 1 := by omega
+  have hv0 : v = 0 := by omega
+  subst hu1 hv0
+  rw [fft2_get_eq _ 2 1 rfl rfl]
+  simp only [fker_eq, toCx, CxLike.ofReal, sum_range_succ, sum_range_zero]
+  have h1 : E 2 1 = -1 := by
+    unfold E
+    have : -(2 * (Real.pi : ℂ) * Complex.I) * ((1 : ℤ) : ℂ) / ((2 : ℕ) : ℂ) = -(Real.pi * Complex.I) := by push_cast; ring
+    rw [this, Complex.exp_neg, Complex.exp_pi_mul_I]; norm_num
+  norm_num [E_zero, h1]
 
 /-- **`smear(angle=None)` is the smear along the drawn direction.** The `angle is None` branch (regenerated from the source) uses the
 draw `uniform(0, 2π) = 2π·u` of the global generator *as radians*; it is exactly `smear` with the given angle `360·u` degrees — so
